@@ -42,8 +42,12 @@ OBS = {"AllowWrongQ": "OBSERVATION X18-O1: a response carrying a pending query's
                             "the TCP Transport both number their sessions from 1: after a TCP fallback to the server whose UDP session has "
                             "another number, responses on the UDP session with the TCP session's number are attributed to the wrong server "
                             "and dropped (no completion before the timeout, no TCP fallback)"}
-ALLOW = ("AllowWrongQ", "AllowDupTrunc", "AllowSidCollision")
-ALLOW_TOKEN = {"AllowWrongQ": "WQ", "AllowDupTrunc": "TR", "AllowSidCollision": "nsrv=2"}
+OBS["AllowCleanupRace"] = ("OBSERVATION X18-O5: DOUBLE COMPLETION reproduced on the real DnsTransport - cleanupExpiredQueries collects an expired "
+                           "query in phase 1 (its timeout timer is late: another query's slow callback keeps the timer thread busy), a response "
+                           "completes and erases it, phases 3/4 then call its callback AGAIN with DnsTimeoutException (the TLC counterexample of "
+                           "Dev_CleanupRace; the probe holds the cleanup thread between phase 1 and phase 3 by interposing pthread_mutex_lock)")
+ALLOW = ("AllowWrongQ", "AllowDupTrunc", "AllowSidCollision", "AllowCleanupRace")
+ALLOW_TOKEN = {"AllowWrongQ": r"WQ", "AllowDupTrunc": r"TF\d (?:.* )?TR\d", "AllowSidCollision": r" (m|Tf)\d", "AllowCleanupRace": r"probe=cleanup"}
 
 
 def cfg(ck, name, devs=(), cleanup=True, maxresp=3, invs=INVS, retries=1, fifo=False):
@@ -175,8 +179,8 @@ def judge(ck, outp, events, execs, lines, what):
             needed = list(ex.map(lambda a: not vf.validate_trace(TRACE, trace_cfg(ck, tuple(b for b in ALLOW if b != a)), outp, tag="X18_val_" + a).accepted, ALLOW))
         for a, need in zip(ALLOW, needed):
             if need:
-                ck.note("%s  [accepted only with the named deviation %s; %d scripts contain %s]" % (
-                    OBS[a], a, sum(1 for ln in lines if ALLOW_TOKEN[a] in ln), ALLOW_TOKEN[a]))
+                ck.note("%s  [accepted only with the named deviation %s; %d scripts match /%s/]" % (
+                    OBS[a], a, sum(1 for ln in lines if re.search(ALLOW_TOKEN[a], ln)), ALLOW_TOKEN[a]))
         ck.note("first event the strict oracle refuses: %s" % first)
         return True
     v = vall
@@ -192,12 +196,12 @@ def run(ck):
     ck.make("drv_dnstransport")
     ck.rule = ("transition cover of the TLC state graph of DnsTransport.tla (2 queries, modes UDP/Both/TCP, scripts of %d server "
                "responses, timeouts, stop) replayed in lock-step on the real DnsTransport against the driver's sockets; "
-               "non-trivial = distinct scripts in which a query is completed by something else than its first well-formed answer") % (4 if thorough else 3)
+               "non-trivial = distinct scripts in which a query is completed by something else than its first well-formed answer") % 3
     # ---- 1. exhaustive model check + self-tests (Dev_* flags) + the as-is graph, side by side (<= 6 TLC workers in total)
     mr = 3 if thorough else 2
     dot = os.path.join(ck.work, "g.dot")
     jobs = {"mc": lambda: vf.run_tlc(IMPL, cfg(ck, "mc", maxresp=mr), tag="X18_mc", workers=3, coverage=True, timeout=900),
-            "asis": lambda: vf.run_tlc(IMPL, cfg(ck, "asis", devs=AS_IS, cleanup=False, fifo=True, maxresp=4 if thorough else 3,
+            "asis": lambda: vf.run_tlc(IMPL, cfg(ck, "asis", devs=AS_IS, cleanup=False, fifo=True, maxresp=3,
                                                invs=["TypeOK", "AtMostOnce", "PendingHasTimer", "StopCompletes", "Budget", "TcpOnlyAfterTrunc"]),
                                       tag="X18_asis", workers=1, coverage=True, dump_dot=dot, timeout=900)}
     for d in DEVS:
@@ -244,7 +248,7 @@ def run(ck):
             path.append(nxt[0][0]); node = nxt[0][1]
         if len(path) >= 3:
             probes.append(path + graph.walk_to_end(node, ck.rng, 40))
-    paths, covered, total = graph.transition_cover(ck.rng, maxlen=40, limit=None if thorough else 300)
+    paths, covered, total = graph.transition_cover(ck.rng, maxlen=40, limit=3000 if thorough else 300)
     ck.note("as-is graph: %s; %d scripts cover %d/%d transitions; + %d directed probes (counterexamples of the Dev_* flags)" % (
         g.summary(), len(paths), covered, total, len(probes)))
     paths = probes + paths
@@ -252,6 +256,8 @@ def run(ck):
     for p in paths:
         head, toks, pred = tokens(p, ck.rng)
         lines.append(head + " | " + " ".join(toks)); preds.append(pred)
+    # the pause-plan probe of the cleanup thread (the counterexample of Dev_CleanupRace; 10 s of real time, runs beside the rest)
+    lines.append("probe=cleanup"); preds.append({})
     classes = {k: sum(1 for ln in lines if re.search(k, ln)) for k in ("TO", "TF", "WQ", "WI", "WS", "MF", "ST", "QS", "api=sync", "mode=T", "mode=B")}
     if min(classes.values()) == 0:
         raise vf.Infra("X18: the script generator produced no case of some class: %s" % classes)
@@ -264,6 +270,9 @@ def run(ck):
     ck.sample({"kind": "DnsTransport script (fallback + timeout)", "case": lines[k], "events": execs[k][1][:18]})
     if not judge(ck, outp, events, execs, lines, "cover"):
         return
+    pr = [e for e in execs[-1][1] if e["e"] == "Probe"]
+    if not (pr and pr[0]["reached"]):
+        ck.note("cleanup probe: the window was not reached in this run (timing): %s" % pr)
     # model drift + measured facts
     drift, fence_bad, once, retr_cases = 0, 0, 0, 0
     for (start, evs), pred, ln in zip(execs, preds, lines):
@@ -291,7 +300,7 @@ def run(ck):
         raise vf.Infra("X18 self-test: a trace with a doubled completion was not rejected (%s)" % (v.error or "accepted"))
     if thorough:
         ck.make("drv_dnstransport.asan")
-        sub = [lines[i] for i in range(0, len(lines), 4)]
+        sub = [lines[i] for i in range(0, len(lines), 10)]
         outp2, events2, execs2 = run_cases(ck, sub, "asan", binary="drv_dnstransport.asan")
         ck.evaluations += len(execs2)
         judge(ck, outp2, events2, execs2, sub, "asan")
